@@ -1,5 +1,37 @@
 package workers
 
-import "strconv"
+import (
+	"os"
+	"strconv"
+
+	"h2v/rt"
+	"h2v/vf"
+)
 
 func strconvUnquote(s string) (string, error) { return strconv.Unquote(s) }
+
+// Half of the bubbles of every reactive worker run with the library's perturbation points (hook H5)
+// yielding or sleeping in virtual time; VERIF_PERTURB overrides the percentage.
+func init() {
+	rt.PerturbShare = 50
+	if s := os.Getenv("VERIF_PERTURB"); s != "" {
+		if v, err := strconv.Atoi(s); err == nil {
+			rt.PerturbShare = v
+		}
+	}
+}
+
+// perturbReport adds what the perturbation hook did to the evidence counters.
+func perturbReport(r *vf.Run) {
+	cases, sleeps, yields, sites, orders := rt.PerturbStats()
+	if cases == 0 {
+		return
+	}
+	r.Inc("perturbed_cases", int64(cases))
+	r.Inc("perturbation_virtual_sleeps", sleeps)
+	r.Inc("perturbation_yields", yields)
+	r.Inc("perturbation_distinct_point_orders(first 64 points, per shard)", int64(orders))
+	for s, n := range sites {
+		r.Inc("perturbation_point:"+s, n)
+	}
+}
